@@ -289,9 +289,15 @@ Definition store_keys_ok (s : store) : Prop := Forall (λ kc, kc.1 ≠ []) (st_c
 Definition paths_safe (f : font_abs) : Prop :=
   Forall layer_safe (fa_layers f) ∧ store_keys_ok (fa_data f) ∧ store_keys_ok (fa_images f).
 
+Definition layers_safe (f : font_abs) : Prop := Forall layer_safe (fa_layers f).
+Definition single_normalb (r : rel) : bool := match r with [Normal _] => true | _ => false end.
+Definition layer_safeb (l : layer_abs) : bool :=
+  single_normalb (la_dir l) && forallb (λ g, single_normalb (g_path g)) (la_glifs l).
+Definition layers_safeb (f : font_abs) : bool := forallb layer_safeb (fa_layers f).
+
 (** the class of finding F8: some glif path taken from contents.plist, or some layer directory,
     is not a single plain component *)
-Definition KnownClass_F8 (f : font_abs) : Prop := ¬ Forall layer_safe (fa_layers f).
+Definition KnownClass_F8 (f : font_abs) : Prop := ¬ layers_safe f.
 
 (** the tree a font determines, relative to the target: the entries in writing order *)
 Definition rel_name (r : rel) : string := match r with [Normal s] => s | _ => "" end.
